@@ -36,6 +36,8 @@ def corr(ctx, n):
     for i in range(n):
         fam = FAMS[i % 3]
         th = implbiv.sample_theta(rng, fam, edge=(rng.random() < 0.15))
+        if fam == 'gumbel' and i % 12 == 2:
+            th = 1.0                              # independence member: percent_point shortcut
         tau = float(tau_of(fam, th))
         m = int(rng.integers(1, 7))
         d1 = rng.uniform(1e-4, 1 - 1e-4, m)
@@ -107,7 +109,7 @@ def stat_search(ctx, n, n_theta):
     from scipy.stats import kendalltau
     rng = np.random.default_rng(ctx.seed + 909)
     hits = 0
-    ntests = 3 * n_theta * (2 + 1 + 100)
+    ntests = 3 * n_theta * (2 + 1 + 100) + 3
     alpha = 1e-9 / ntests
     ks_band = math.sqrt(math.log(2 / alpha) / (2 * n))
     tau_band = math.sqrt(2 * math.log(2 / alpha) / (n // 2))
@@ -115,7 +117,7 @@ def stat_search(ctx, n, n_theta):
         for it in range(n_theta):
             th = implbiv.sample_theta(rng, fam)
             if fam == 'gumbel':
-                th = max(th, 1.05)
+                th = 1.0 if it == 0 else max(th, 1.05)
             tau = float(tau_of(fam, th))
             seed = int(rng.integers(0, 2 ** 31 - 1))
             from copulas.bivariate import Bivariate
@@ -161,6 +163,38 @@ def stat_search(ctx, n, n_theta):
             if bad:
                 hits += 1
                 ctx.violation(bad[0], f'{fam} theta={th} seed={seed}: {bad[1]}', {'family': fam, 'theta': th, 'tau': tau, 'seed': seed, 'n': n, 'repro': rep})
+    # history: a copula fitted, re-fitted on data with different dependence, then sampled, must follow its CURRENT tau
+    from copulas.bivariate import Bivariate
+    for fam in FAMS:
+        th1, th2 = {'clayton': (0.5, 4.0), 'frank': (2.0, 9.0), 'gumbel': (1.3, 3.0)}[fam]
+        seed = int(rng.integers(0, 2 ** 31 - 1))
+        g1 = Bivariate(copula_type=fam, random_state=seed)
+        g1.theta, g1.tau = th1, float(tau_of(fam, th1))
+        g2 = Bivariate(copula_type=fam, random_state=seed + 1)
+        g2.theta, g2.tau = th2, float(tau_of(fam, th2))
+        try:
+            with np.errstate(all='ignore'):
+                X1, X2 = g1.sample(600), g2.sample(600)
+                c = Bivariate(copula_type=fam, random_state=seed + 2)
+                c.fit(X1)
+                c.fit(X2)
+                S = np.asarray(c.sample(n), dtype=float)
+            t_hat = float(kendalltau(S[:, 0], S[:, 1])[0])
+            ctx.case(('stat-refit', fam), None)
+            if abs(t_hat - float(c.tau)) > tau_band:
+                hits += 1
+                ctx.violation(f'search:refit-then-sample-tau-mismatch:{fam}',
+                              f'{fam}: fit(X1, tau~{g1.tau:.2f}); fit(X2, tau~{g2.tau:.2f}); sample: Kendall tau {t_hat:.3f} vs model tau {float(c.tau):.3f} (band {tau_band:.3f})',
+                              {'family': fam, 'seed': seed, 'theta1': th1, 'theta2': th2, 'sample_tau': t_hat, 'model_tau': float(c.tau), 'model_theta': float(c.theta),
+                               'repro': (f"import numpy as np\nfrom scipy.stats import kendalltau\nfrom copulas.bivariate import Bivariate\n"
+                                         f"g1=Bivariate(copula_type='{fam}', random_state={seed}); g1.theta={th1}; g1.tau={g1.tau!r}\n"
+                                         f"g2=Bivariate(copula_type='{fam}', random_state={seed + 1}); g2.theta={th2}; g2.tau={g2.tau!r}\n"
+                                         f"X1,X2=g1.sample(600),g2.sample(600)\nc=Bivariate(copula_type='{fam}', random_state={seed + 2}); c.fit(X1); c.fit(X2)\nS=c.sample({n})\n"
+                                         f"t=kendalltau(S[:,0],S[:,1])[0]\nprint(t, c.tau, c.theta)\nassert abs(t-c.tau) < {tau_band!r}\n")})
+        except Exception as ex:
+            if not (fam == 'gumbel' and 'different signs' in str(ex)):
+                hits += 1
+                ctx.violation(f'search:refit-then-sample-raises:{fam}:{type(ex).__name__}', f'{fam}: fit; fit; sample raised {type(ex).__name__}: {ex}', {'family': fam, 'seed': seed, 'repro': '# see what'})
     ctx.rule(f'search (statistical, witness search only): n={n} samples per (family, theta): DKW band {ks_band:.4f} on each margin and on a 10x10 grid of the joint CDF, '
              f'Hoeffding U-statistic band {tau_band:.4f} on Kendall tau; Bonferroni over {ntests} tests at total level 1e-9')
     return hits
